@@ -53,11 +53,12 @@ class Frame:
         self.vars = {}         # local/param id -> ZPoly | ('obj', objid, off)
         self.ret = None
         self.returned = False
+        self.ctl = None        # 'break' / 'continue' on the way to the enclosing loop
 
     def copy(self):
         f = Frame(self.fn, self.this)
         f.vars = dict(self.vars)
-        f.ret, f.returned = self.ret, self.returned
+        f.ret, f.returned, f.ctl = self.ret, self.returned, self.ctl
         return f
 
 
@@ -78,7 +79,7 @@ class St:
         if not self.p.same_as(o.p) or len(self.frames) != len(o.frames):
             return False
         for a, b in zip(self.frames, o.frames):
-            if a.vars != b.vars or a.ret != b.ret or a.returned != b.returned:
+            if a.vars != b.vars or a.ret != b.ret or a.returned != b.returned or a.ctl != b.ctl:
                 return False
         return True
 
@@ -824,7 +825,7 @@ class CppMachine:
 
     # ---------------- statements: each returns a list of states ----------------
     def exec(self, st, s):
-        if s is None or st.fr.returned:
+        if s is None or st.fr.returned or st.fr.ctl:
             return [st]
         if s.get('k') in ('expr', 'decl', 'return'):
             try:
@@ -952,6 +953,11 @@ class CppMachine:
                             done.append(x2)
                             continue
                         for y in self.exec(x2, s['body']):
+                            if y.fr.ctl == 'break':
+                                y.fr.ctl = None
+                                done.append(y)
+                                continue
+                            y.fr.ctl = None
                             if s.get('inc') is not None and not y.fr.returned:
                                 nxt += self.expr_stmt(y, s['inc'])
                             else:
@@ -966,8 +972,6 @@ class CppMachine:
             return self.loop_summaries[id(s)](st)
         if k in ('while', 'do'):
             # unrolled like `for`: every iteration's condition must be decided or forked on
-            if any(x.get('k') in ('break', 'continue') for x in walk(s['body'])):
-                raise Unsupported('break / continue in a loop at %s' % loc_str(s))
             sts = [st]
             done = []
             first = (k == 'do')
@@ -981,7 +985,13 @@ class CppMachine:
                         if not r:
                             done.append(x2)
                             continue
-                        nxt += self.exec(x2, s['body'])
+                        for y in self.exec(x2, s['body']):
+                            if y.fr.ctl == 'break':
+                                y.fr.ctl = None
+                                done.append(y)
+                                continue
+                            y.fr.ctl = None
+                            nxt.append(y)
                 first = False
                 sts = self.merge(nxt)
                 if not sts:
@@ -990,6 +1000,9 @@ class CppMachine:
                     raise Unsupported('state explosion in loop at %s' % loc_str(s))
             raise Unsupported('loop bound at %s' % loc_str(s))
         if k in ('null',):
+            return [st]
+        if k in ('break', 'continue'):
+            st.fr.ctl = k
             return [st]
         raise Unsupported('statement %s at %s' % (k, loc_str(s)))
 
@@ -1654,12 +1667,55 @@ def check_cpp_function(prog, fn, kind, wordbits, bits):
                 inv = m.world.input('INV')
                 us = [(name, (at['rel'][1] if at['rel'][0] == inv else at['rel'][0])) for name, at in m.world.atoms.items()
                       if at['kind'] == 'trunc' and at.get('rel') is not None and inv in at['rel']]
+                zero_u = {}
                 if len(us) != n:
-                    msgs.append('expected %d quotient words u_i = lo(t_i * inv), found %d' % (n, len(us)))
+                    # the routine forks on run-time data: keep the quotient words this path computed (those its memory and facts refer to)
+                    live = set()
+                    work = []
+                    for (k_, v_) in st.p.mem.items():
+                        if isinstance(v_, ZPoly):
+                            work += list(v_.atoms())
+                    for r_ in st.p.rels:
+                        work += list(r_[0].atoms()) + list(r_[1].atoms())
+                    work += list(st.p.bits)
+                    while work:
+                        a_ = work.pop()
+                        if a_ in live:
+                            continue
+                        live.add(a_)
+                        at_ = m.world.atoms.get(a_) or {}
+                        for fld in ('defn',):
+                            if isinstance(at_.get(fld), ZPoly):
+                                work += list(at_[fld].atoms())
+                        if at_.get('rel') is not None:
+                            for x_ in at_['rel']:
+                                if isinstance(x_, ZPoly):
+                                    work += list(x_.atoms())
+                        for fld in ('comp', 'partner'):
+                            if isinstance(at_.get(fld), str):
+                                work.append(at_[fld])
+                    us = [(un, t) for (un, t) in us if un in live]
+                    for r_ in st.p.rels:
+                        if r_[2] == frozenset({'eq'}) and r_[1].is_zero() and len(r_[0].atoms()) == 1 and r_[0] == ZPoly.var(list(r_[0].atoms())[0]):
+                            zero_u[list(r_[0].atoms())[0]] = True
+                if len(us) != n:
+                    msgs.append('on the path %s: expected %d quotient words u_i = lo(t_i * inv), found %d' % (pr.describe(), n, len(us)))
                     continue
                 zs = []
                 bad = False
-                for (un, t) in us:
+                usub = {un: ZERO for (un, t) in us if un in zero_u}
+                for row, (un, t) in enumerate(us):
+                    if un in zero_u:
+                        # a skipped round (u_i == 0, hence t_i == 0 since inv is odd): the word stays where it is and must be that t_i
+                        cur = st.p.mem.get((names[1], row * m.wb))
+                        if cur is None:
+                            cur = words_of(m, names[1], 2 * n)[row]
+                        if not (cur - t).is_zero():
+                            msgs.append('on the path %s the round with u == 0 does not leave word %d as it was tested' % (pr.describe(), row))
+                            bad = True
+                            break
+                        zs.append(t)
+                        continue
                     want = ZPoly.var(un) * pw[0] + t
                     z = None
                     for (key, val) in m.splits.items():
@@ -1672,19 +1728,22 @@ def check_cpp_function(prog, fn, kind, wordbits, bits):
                     zs.append(z)
                 if bad:
                     continue
-                U = bigw(m, [ZPoly.var(un) for (un, t) in us])
-                V = pr.x(bigw(m, [st.p.mem.get((names[1], (n + i) * m.wb)) for i in range(n)]))
+                U = bigw(m, [ZPoly.var(un) for (un, t) in us]).subs(usub) if usub else bigw(m, [ZPoly.var(un) for (un, t) in us])
+                Tw_ = words_of(m, names[1], 2 * n)
+                Vws = [st.p.mem.get((names[1], (n + i) * m.wb), Tw_[n + i]) for i in range(n)]
+                V = pr.x(bigw(m, Vws))
                 Z = pr.x(bigw(m, zs))
                 okv, why1 = pr.leftover_ok(V * Wn + Z - pr.x(T) - pr.x(U) * pr.x(P), 2 * n)
                 if not okv:
-                    msgs.append('2^%d * V + (cancelled low words) differs from T + U*p by %s' % (n * wordbits, why1[:300]))
+                    msgs.append('%s2^%d * V + (cancelled low words) differs from T + U*p by %s' % (
+                        ('on the path %s ' % pr.describe()) if zero_u else '', n * wordbits, why1[:300]))
                     continue
                 plain, _ = pr.leftover_ok(R - V, n)
                 corr, _ = pr.leftover_ok(R - (V - pr.x(P)), n)
                 if not plain and not corr:
                     msgs.append('on the path %s the result is neither V nor V - p' % pr.describe())
                     continue
-                Vw = bigw(m, [st.p.mem.get((names[1], (n + i) * m.wb)) for i in range(n)])
+                Vw = bigw(m, Vws)
                 verdict, why = pr.decide_ge(Vw, P)
                 if verdict is None:
                     msgs.append('on the path %s nothing determines whether V reaches the modulus (%s)' % (pr.describe(), why[:200]))
